@@ -103,12 +103,12 @@ def run(p):
                 o = fil.extract_samps(start, ne, outfile_name=os.path.join(d, "o.fil"), gulp=gulp, quiet=True)
                 outs.append((o, sel, nbits, dict(fch1=fch1, foff=foff, nchans=nchans, tstart=tstart + start * tsamp / 86400.0)))
             elif op == "extract_chans":
-                fs = fil.extract_chans(np.array(p["chans"]), outfile_base=os.path.join(d, "o"), **kw)
+                fs = fil.extract_chans(np.array(p["chans"]), outfile_base=os.path.join(d, "o"), batch_size=p.get("batch_size", 200), **kw)
                 for f, c in zip(fs, p["chans"]):
                     outs.append((f, sel[:, [c]], 32, dict(nchans=1)))
             elif op == "extract_bands":
                 cs, ncs, cps = p["chanstart"], p["nchans_sel"], p["chanpersub"]
-                fs = fil.extract_bands(cs, ncs, cps, outfile_base=os.path.join(d, "o"), **kw)
+                fs = fil.extract_bands(cs, ncs, cps, outfile_base=os.path.join(d, "o"), batch_size=p.get("batch_size", 200), **kw)
                 if len(fs) < ncs // cps:
                     bad.append(f"extract_bands wrote {len(fs)} files, the request needs {ncs // cps}")
                 for b_, f in enumerate(fs):
